@@ -14,6 +14,7 @@ import (
 	"regexp"
 	"sort"
 	"strconv"
+	"strings"
 	"sync"
 	"time"
 )
@@ -316,10 +317,19 @@ func (r *Run) Finish(evalCounter, nontrivialSet, rule string, need int) {
 	}
 	// verdict lines
 	sort.SliceStable(vlist, func(i, j int) bool { return vlist[i].Class < vlist[j].Class })
+	// one line per listed finding (a finding may be matched by several violation classes)
+	knownSeen := map[string][]string{}
+	var knownOrder []string
 	for _, v := range vlist {
 		if v.Known != "" {
-			fmt.Printf("KNOWN-FINDING: property=%s %s (class %s, seen %d times)\n", r.ID, v.Known, v.Class, v.Count)
+			if _, ok := knownSeen[v.Known]; !ok {
+				knownOrder = append(knownOrder, v.Known)
+			}
+			knownSeen[v.Known] = append(knownSeen[v.Known], fmt.Sprintf("%s x%d", v.Class, v.Count))
 		}
+	}
+	for _, k := range knownOrder {
+		fmt.Printf("KNOWN-FINDING: property=%s %s [observed as: %s]\n", r.ID, k, strings.Join(knownSeen[k], "; "))
 	}
 	for _, v := range vlist {
 		if v.Known == "" {
